@@ -40,7 +40,7 @@ def _impl_load_line(ad, raw, opts):
         q = ad.quant(r.value, opts)
     except Exception as exc:
         return "err quant:" + type(exc).__name__, r.value
-    return "ok " + ad.enc(q), r.value
+    return "ok " + (ad.enc_any(q) if hasattr(ad, "enc_any") else ad.enc(q)), r.value
 
 
 def corr_roundtrip(ctx, ad, n, generations=1):
@@ -70,6 +70,8 @@ def corr_roundtrip(ctx, ad, n, generations=1):
         g2req, g2imp, g2cls = [], [], []
         for enc, obj, opts, cls in second:
             r = F.real_dump(obj, ad.fmt, **ad.kw(opts))
+            if hasattr(ad, "loaded_to_obj_enc"):
+                enc = ad.loaded_to_obj_enc(enc)
             g2req.append(f"fmt dump {ad.key} {opts} {enc}")
             g2imp.append("ok " + r.value.hex() if r.ok else "err DumpError")
             g2cls.append(cls)
@@ -130,7 +132,7 @@ def c15_eval(ad, x, kw=None):
         return None  # not accepted by the format: outside the quantifier (C02 reports refusals)
     l1 = F.real_load(r1.value, ad.fmt, **kw)
     if not l1.ok:
-        return (f"{ad.key}:reload-fails", f"{ad.fmt}: first-generation file cannot be read back: {l1.exc!r}"[:300])
+        return None  # a first file that cannot be read back is C02's finding; C15 speaks about what follows a cycle
     r2 = F.real_dump(l1.value, ad.fmt, **kw)
     if not r2.ok:
         return (f"{ad.key}:gen2-refused", f"{ad.fmt}: the reloaded object is refused on the second save: {r2.exc!r}"[:300])
@@ -194,7 +196,8 @@ def c03_flow(ctx, ad, n):
                 ctx.obligation(f"spec-writers-agree:{ad.key}", False,
                                f"Lean specRender and the Python spec writer differ: {raw[:200]!r} vs {py[:200]!r}")
         line, obj = _impl_load_line(ad, raw, opts)
-        expect = "ok " + ad.enc(ad.spec_obj(m))
+        so = ad.spec_obj(m)
+        expect = "ok " + (ad.enc_any(so) if hasattr(ad, "enc_any") else ad.enc(so))
         known_dev = ad.spec_deviation(m) if hasattr(ad, "spec_deviation") else None
         ctx.count(f"spec-load:{ad.key}", ad.enc_spec(m), cls + ("" if line == expect else "/DIFF"), sample={"format": ad.key, "class": cls})
         if line != expect:
@@ -204,6 +207,13 @@ def c03_flow(ctx, ad, n):
         lreq.append(f"fmt load {ad.key} {opts} {raw.hex()}")
         limp.append(line)
         lcls.append(cls)
+        # other spellings the published layout allows (rendered by the Python spec writer only)
+        for vname, vraw in (ad.spec_variants(m, opts) if hasattr(ad, "spec_variants") else []):
+            vline, _ = _impl_load_line(ad, vraw, opts)
+            ctx.count(f"spec-variant:{ad.key}", [vname, ad.enc_spec(m)], vname + ("" if vline == expect else "/DIFF"))
+            if vline != expect:
+                ctx.fail(f"{ad.key}:spec:{vname}", f"{ad.fmt}: spec file variant '{vname}' is not loaded as written",
+                         {"kind": "c03", "format": ad.key, "opts": opts, "hex": vraw.hex(), "expect": expect})
     ctx.corr(f"load-spec:{ad.key}", lreq, limp, None, lcls)
 
 
